@@ -42,6 +42,8 @@ class Sched:
         self.steps = 0
         self.max_steps = 5000
         self.last_run = {}
+        self.yield_after_put = True     # the consumer woken by a put may run before the producer continues
+        self.yield_on_start = False     # a freshly started thread may run before its creator continues
         self.script = None          # concrete replay: list of (thread name, timed_out) decisions
 
     def all(self):
@@ -179,6 +181,8 @@ class CoopThread(threading.Thread):
             raise RuntimeError("threads can only be started once")
         super().start()
         self.started = True
+        if self._s.yield_on_start and self._s.abort is None:
+            self._s.yield_(lambda: True, what="after-start")
 
     def join(self, timeout=None):
         s = self._s
@@ -227,6 +231,8 @@ class CoopQueue:
             s.yield_(lambda: True, what="put")
         self._touch()
         self.items.append(x)
+        if s.yield_after_put and id(self) not in s.private:
+            s.yield_(lambda: True, what="after-put")
 
     def put_nowait(self, x):
         return self.put(x, block=False)
